@@ -3,5 +3,6 @@
 set -e
 cd "$(dirname "$0")"
 cp ../coq/Extract/model.ml ../coq/Extract/model.mli .
-ocamlfind ocamlopt -O2 -w -a -package str model.mli model.ml entries.ml driver.ml -o modelrun 2>&1 | grep -v "options -O2 is only relevant" || true
+# libm.ml + libm_stubs.c: the libm oracle handed to entries marked "libm"
+ocamlfind ocamlopt -O2 -w -a -package str libm_stubs.c model.mli model.ml libm.ml entries.ml driver.ml -cclib -lm -o modelrun 2>&1 | grep -v "options -O2 is only relevant" || true
 test -x modelrun
